@@ -258,9 +258,6 @@ func checkC14TL2(c tl2Case) pbt.Result {
 	}
 	out, err := goBuild(mod, "g")
 	if err != nil {
-		if pbt.Known("F44") && !pbt.Replaying() && (strings.Contains(out, "case-insensitive import collision") || strings.Contains(out, "case-insensitive file name collision")) {
-			return pbt.Result{Excluded: "F44"}
-		}
 		return pbt.Fail("tl2gen accepted the TL2 schema (options %v) but the generated code does not build:\n%s\n--- schema.tl2 ---\n%s", c.Args, tailStr(out, 12), tl2text)
 	}
 	return pbt.Result{NonTrivial: true, Classes: []string{"tl2-built"}}
